@@ -81,9 +81,11 @@ theorem C03_failed_needs_newer (s : Sys) (sel : List Nat) (b : Builds) (hg : Hea
 
 /-- **C03, direct path (queue skipped), partial.** Hypothesis beyond the property text: `ffReady` — every
     integration branch contains its target's tip AND its predecessor's tip (`is_needed` only tests the first half;
-    the second half holds for integration branches the robot itself updated). Then the merge creates no commit,
-    and every target that moves lands on the source tip or an integration tip — the very commits on which
-    `check_build_status` read SUCCESSFUL (`hgate`) — or on a commit that already was the tip of a target branch. -/
+    the second half holds for integration branches the robot itself updated). Then, under either merge strategy
+    (`pr.noOct` is arbitrary), the merge creates no commit, and every target that moves lands on the source tip or an
+    integration tip — the very commits on which `check_build_status` read SUCCESSFUL (`hgate`) — or on a commit
+    that already was the tip of a target branch. For `no_octopus` this rests on the order of the two consecutive
+    merges (integration branch first): `C03_direct_consecutive_order_matters`. -/
 theorem C03_direct_partial {s : Sys} {l4 : Loc} (hl : l4.OK) (pr : PrInfo) {sc dc : Commit} (d1 : Dest) (ds : List Dest)
     (hnd : (d1 :: ds).Nodup) (pre : List Op)
     (hdc : l4.refs.get (.dest d1) = some dc) (hsc : sc < l4.g.size) (hle : l4.g.le dc sc = true)
@@ -104,11 +106,49 @@ theorem C03_direct_partial {s : Sys} {l4 : Loc} (hl : l4.OK) (pr : PrInfo) {sc d
   · exact Or.inr (Or.inl (hgate.2 d' hd' n h))
   · exact Or.inr (Or.inr ⟨d', hd', h⟩)
 
+/-- the state of the witness below: queues on, `skip_queue_when_not_needed`, development/4.3 (commit 1) and
+    development/5.1 (commit 2), a pull request `feature/x` (commit 3, on top of development/4.3) whose integration
+    branches exist: `w/5.1/feature/x` is commit 4, made by the evaluation itself with `no_octopus` on -/
+def directWitness (noOct : Bool) : Sys × PrInfo :=
+  let s := BertE.Drv.C01.initSys true true [.dev 4 (some 3), .dev 5 (some 1)]
+  let s1 := (step s (.extSet "feature/x" [1] false)).1
+  let pr : PrInfo := ⟨1, "feature/x", .dev 4 (some 3), noOct⟩
+  ((step s1 (.evalPr pr .integration [] [])).1, pr)
+
+/-- **The order of the consecutive merges matters** (witness; this is the defect repaired by `be6ead0`, kept as the
+    regression's description). In the state above with `no_octopus` on — the source (3) contains its destination (1),
+    the integration branch `w/5.1/feature/x` (4) contains its target's tip (2) and its predecessor (3): `ffReady` —
+    the evaluation as the code is now (`consecutive_merge(development/5.1, w/5.1/feature/x, development/4.3)`)
+    fast-forwards development/5.1 to the integration tip 4, the commit that was built. The former order,
+    `consecutive_merge(development/5.1, development/4.3, w/5.1/feature/x)` = `Loc.merge2 _ 3 4` on the clone in which
+    development/4.3 is already on 3, first merges 3 into 2 (incomparable: commit 5), then 4 (incomparable with 5:
+    commit 6): development/5.1 ended on commit 6, which did not exist before the job (the graph had 5 commits) and on
+    which no build was ever reported. -/
+theorem C03_direct_consecutive_order_matters :
+    let s := (directWitness true).1
+    let pr := (directWitness true).2
+    let d5 : Dest := .dev 5 (some 1)
+    let clone : Loc := ⟨s.g, s.remote.set (.dest (.dev 4 (some 3))) 3, []⟩
+    s.g.size = 5 ∧ s.remote.get (.dest (.dev 4 (some 3))) = some 1 ∧ s.remote.get (.dest d5) = some 2 ∧
+    s.remote.get (.other "feature/x") = some 3 ∧ s.remote.get (.w d5 "feature/x") = some 4 ∧ s.g.le 1 3 = true ∧
+    ffReady s.g s.remote pr.src 3 [d5] ∧
+    -- the code as it is: fast-forward to the built integration commit
+    (step s (.evalPr pr .final [] [])).2 = "SuccessMessage" ∧
+    (step s (.evalPr pr .final [] [])).1.remote.get (.dest (.dev 4 (some 3))) = some 3 ∧
+    (step s (.evalPr pr .final [] [])).1.remote.get (.dest d5) = some 4 ∧
+    (step s (.evalPr pr .final [] [])).1.g.size = 5 ∧
+    (clone.merge2 (.dest d5) 4 3).map (fun l => (l.g.size, l.refs.get (.dest d5))) = some (5, some 4) ∧
+    -- the former order of the same two merges: two new commits
+    (clone.merge2 (.dest d5) 3 4).map (fun l => (l.g.size, l.refs.get (.dest d5))) = some (7, some 6) := by
+  refine ⟨by decide, by decide, by decide, by decide, by decide, by decide,
+    ⟨2, 4, by decide, by decide, by decide, by decide, trivial⟩,
+    by decide, by decide, by decide, by decide, by decide, by decide⟩
+
 /-- Non-vacuity: a concrete queue with one entry, selected, green. -/
 example :
     let s := BertE.Drv.C01.initSys true false [.dev 4 (some 3), .dev 5 (some 1)]
     let s1 := (step s (.extSet "feature/x" [1] false)).1
-    let s2 := (step s1 (.evalPr ⟨1, "feature/x", .dev 4 (some 3)⟩ .final [] [])).1
+    let s2 := (step s1 (.evalPr ⟨1, "feature/x", .dev 4 (some 3), false⟩ .final [] [])).1
     s2.queue.length = 1 ∧ (lastTargeting (selected s2 [1]) (.dev 5 (some 1))).isSome = true := by decide
 
 /-! ### the selection computed: no hypothesis about it (composition with the model of `QueueCollection._process`)
@@ -275,7 +315,7 @@ def e2eHost : Host :=
 
 example : (evalPr BertE.C06.exCfg e2eHost e2eSys 1 [] []).stage = .final ∧
     (evalPr BertE.C06.exCfg e2eHost e2eSys 1 [] []).outcome = "SuccessMessage" ∧
-    isNeeded e2eSys ⟨e2eSys.g, e2eSys.remote, []⟩ ⟨1, "feature/TEST-1", .dev 4 (some 3)⟩ [.dev 4 (some 3)] = false ∧
+    isNeeded e2eSys ⟨e2eSys.g, e2eSys.remote, []⟩ ⟨1, "feature/TEST-1", .dev 4 (some 3), false⟩ [.dev 4 (some 3)] = false ∧
     (applyOps (evalPr BertE.C06.exCfg e2eHost e2eSys 1 [] []).plan.g noRej e2eSys.remote
       (evalPr BertE.C06.exCfg e2eHost e2eSys 1 [] []).plan.ops).get (.dest (.dev 4 (some 3))) = some 2 ∧
     e2eHost.status 2 = .successful := by decide +kernel
